@@ -206,8 +206,11 @@ class _ShimShutil:
 
 def alive_check() -> int:
     """does `DataCollection.stop` look at the writer thread while it waits? (selects the model variant)"""
-    src = inspect.getsource(D.env()["dcm"].DataCollection.stop)
-    return 1 if "is_alive" in src else 0
+    E = D.env()
+    if "alive_check" not in E:
+        src = inspect.getsource(E["dcm"].DataCollection.stop)
+        E["alive_check"] = 1 if "is_alive" in src else 0
+    return E["alive_check"]
 
 
 def tail_len(case: Dict[str, Any]) -> int:
@@ -249,31 +252,40 @@ def run_fine_case(case: Dict[str, Any]) -> Dict[str, Any]:
                            "wexc": None, "fired": 0, "audit": []}
     tmps: List[Any] = []
     try:
-        md = E["LoggingMetadata"]()
-        dc = dcm.DataCollection("c", base, "run", md)
-        ctl.names[id(dc.write_to_disk)] = "td"
-        ctl.names[id(dc.write_finished)] = "fin"
-        ctl.wait_arrival()
-        GDS = _mk_gds(E, ctl)
         dsets = []
-        for i, d in enumerate(case["ds"]):
-            types = [2147483647] if d["types"] == "A" else [D.TYPE_IDS[t] for t in d["types"]]
-            ds = GDS.__new__(GDS)
-            object.__setattr__(ds, "_vi", i)
-            ds.__init__("c", f"ds{i}", f"ds{i}", "f", E["get_formatter"](d["fmt"]), d["interval"], types, md)
-            tmps.append(getattr(ds.formatter, "data_tmp", None))      # placeholder formatter of __init__
-            dc.add_data_set(ds)
-            dsets.append(ds)
-        dc.start()
+        try:      # set-up: an exception of the code under test is an observation, never a crash of the harness
+            md = E["LoggingMetadata"]()
+            dc = dcm.DataCollection("c", base, "run", md)
+            ctl.names[id(dc.write_to_disk)] = "td"
+            ctl.names[id(dc.write_finished)] = "fin"
+            if ctl.started:
+                ctl.wait_arrival()
+            GDS = _mk_gds(E, ctl)
+            for i, d in enumerate(case["ds"]):
+                types = [2147483647] if d["types"] == "A" else [D.TYPE_IDS[t] for t in d["types"]]
+                ds = GDS.__new__(GDS)
+                object.__setattr__(ds, "_vi", i)
+                ds.__init__("c", f"ds{i}", f"ds{i}", "f", E["get_formatter"](d["fmt"]), d["interval"], types, md)
+                tmps.append(getattr(ds.formatter, "data_tmp", None))      # placeholder formatter of __init__
+                dc.add_data_set(ds)
+                dsets.append(ds)
+            D.pre_ops(case, dc, shim_time)
+            dc.start()
+        except C.MachineryError:
+            raise
+        except Exception as e:  # noqa: BLE001
+            obs["status"] = "raise:" + type(e).__name__
+            obs["rexc"] = "during set-up (constructors / add_data_set / start): " + repr(e)
+            obs["wdead"] = 1 if ctl.at.get("W") == "finished" else 0
+            return obs
         msgs: Dict[int, Any] = {}
         keys: Dict[Tuple[bytes, bytes], int] = {}
         hkeys: Dict[bytes, int] = {}
-        for op in case["ops"]:
-            if op[0] == "u":
-                m = D.mk_msg(op[2], op[3])
-                msgs[op[3]] = m
-                keys[D.key_of(m)] = op[3]
-                hkeys[bytes(m.header)] = op[3]
+        for op in D.all_updates(case):
+            m = D.mk_msg(op[2], op[3])
+            msgs[op[3]] = m
+            keys[D.key_of(m)] = op[3]
+            hkeys[bytes(m.header)] = op[3]
 
         def r_main():
             ctl.tid_of[_real_threading.get_ident()] = "R"
@@ -306,16 +318,17 @@ def run_fine_case(case: Dict[str, Any]) -> Dict[str, Any]:
         ctl.wait_arrival()
         sched = list(case["sched"]) + ["R", "W"] * (tail_len(case) // 2)
         ac = alive_check()
-        for t in sched:
+
+        def stop() -> bool:
             if ctl.at.get("R") == "finished":
-                break
+                return True
             if (ctl.at.get("W") == "finished" and ctl.at.get("R") == (dc.write_finished, "wait")
                     and not dc.write_finished._flag and not ac):
                 obs["status"] = "hang"     # only the (dead) writer could ever set write_finished
-                break
-            lab = ctl.step(t)
-            if lab is not None:
-                obs["trace"].append(f"{t}:{lab}")
+                return True
+            return False
+
+        ctl.run(sched, stop, obs["trace"])
         obs["warn"] = wc.n
         obs["wdead"] = 1 if ctl.at.get("W") == "finished" else 0
         obs["fired"] = 1 if ctl.fired else 0
@@ -329,7 +342,7 @@ def run_fine_case(case: Dict[str, Any]) -> Dict[str, Any]:
         for i, d in enumerate(case["ds"]):
             ddir = os.path.join(base, "run", f"ds{i}")
             names = sorted(os.listdir(ddir)) if os.path.isdir(ddir) else []
-            ext = dsets[i].formatter_cls.ext
+            ext = E["get_formatter"](d["fmt"]).ext
             ordered = [n for n in names if n == "f" + ext] + sorted(n for n in names if n != "f" + ext)
             flist = []
             blist = []
@@ -351,7 +364,7 @@ def run_fine_case(case: Dict[str, Any]) -> Dict[str, Any]:
             obs["files"].append(flist)
             obs.setdefault("fbytes", []).append(blist)
     finally:
-        ctl.abort = ctl.at.get("R") != "finished"
+        ctl.abort = "R" in ctl.at and ctl.at["R"] != "finished"      # R was started and is parked inside an operation
         if ctl.abort:
             ctl.go["R"].release()
             ctl.wait_arrival()
@@ -359,10 +372,11 @@ def run_fine_case(case: Dict[str, Any]) -> Dict[str, Any]:
         ctl.free = True
         if dc is not None:
             _PV.set_flag_read_by(dc, "write", True, "_close")      # the writer loop's stop flag, whatever it is called
-            if ctl.at.get("W") != "finished":
+            if ctl.started and ctl.at.get("W") != "finished":
                 ctl.go["W"].release()
             try:
-                dc.write_thread.join(10)
+                if getattr(dc, "write_thread", None) is not None and ctl.started:
+                    dc.write_thread.join(10)
                 for ds in dc.datasets:
                     for obj in (ds, getattr(ds.formatter, "data_tmp", None)):
                         try:
@@ -395,10 +409,8 @@ def fine_block(cid: str, case: Dict[str, Any], obs: Dict[str, Any]) -> List[str]
     lines = [f"CASE {cid} G {int(wp) if float(wp).is_integer() else wp} {tail_len(case)} {alive_check()}"]
     for d in case["ds"]:
         lines.append(f"DS {D.sel_tok(d['types'])} {D.eff_interval(d['interval'])} {D.FMT_TOK[d['fmt']]}")
-    toks = []
-    for op in case["ops"]:
-        toks.append(f"u:{op[1]}:{op[2]}:{op[3]}" if op[0] == "u" else f"{op[0]}:{op[1]}")
-    lines.append("OPS " + " ".join(toks))
+    lines.append("OPS " + D.ops_toks(case["ops"]))
+    lines += D.pre_lines(case)
     lines.append("SCHED " + (case["sched"] or "-"))
     fl = case.get("faults") or []
     lines.append("FAULTS " + (" ".join(map(str, fl)) if fl else "-"))
